@@ -174,6 +174,9 @@ def check_fields(res, cfg, s, got, tier, key, dg):
         if t > 0:
             # both sides of the front (the strain jumps there), a small distance away from it
             r = np.concatenate([r, [a * (1.0 + 1e-9), front - 1e-6 * L, front + 1e-6 * L, front + 1e-3 * L]])
+        # far field: decades of cavity radii ahead of the front (the closed forms overflow there; the statement says the
+        # displacement *vanishes* ahead of the front -- added after the seeded change S-C15-3)
+        r = np.concatenate([r, front + a * np.array([3e1, 1e2, 1e3, 1e4, 1e5, 1e6])])
         r = np.unique(r[r >= a])
         tp = t - (r - a) / cL
         near = np.abs(tp) < FRONT_GAP * T
@@ -321,6 +324,16 @@ def run_task(task):
         res.pop("_w")
         return res
     res["nontrivial"].append(key)
+    # a second, clearly different material is constructed AFTER the solver under test and before it is evaluated: the six
+    # moduli and the fields of `s` must describe s's own material, not the most recently constructed one (added after the
+    # seeded change S-C15-2, where _run read the class-level dictionary that every constructor overwrites)
+    try:
+        with warnings.catch_warnings():
+            warnings.simplefilter("ignore")
+            Blake(shear_mod=3.7 * G, poisson_ratio=(0.31 if abs(nu - 0.31) > 0.05 else 0.17), ref_density=1234.5)
+        C["decoy_materials_constructed"] = 1
+    except Exception:
+        C["decoy_construction_failed"] = 1
     got = check_params(res, cfg, s, pair, ref)
     dg.add([got[n] for n in NAMES])
     check_fields(res, cfg, s, got, tier, key, dg)
